@@ -49,7 +49,82 @@ def _sort_check(c, prices):
     return None
 
 
+TS0 = 1609459200000
+
+
+def _fills(rows, strategy_cls):
+    """run a real 1m step-mode backtest; returns [(minute index, price)] of every fill in execution order"""
+    from jesse import research
+    from jesse.models import Order
+    from jesse.store import store
+    fills = []
+    orig = Order.execute
+
+    def execute(self, silent=False):
+        was = self.status
+        r = orig(self, silent)
+        if was != self.status and self.is_executed:
+            fills.append((int((store.app.time - 60000 - TS0) // 60000), float(self.price)))
+        return r
+    Order.execute = execute
+    try:
+        cfg = {'starting_balance': 100000, 'fee': 0, 'type': 'futures', 'futures_leverage': 2, 'futures_leverage_mode': 'cross',
+               'exchange': 'Sandbox', 'warm_up_candles': 0}
+        research.backtest(cfg, [{'exchange': 'Sandbox', 'strategy': strategy_cls, 'symbol': 'BTC-USDT', 'timeframe': '1m'}], [],
+                          {'Sandbox-BTC-USDT': {'exchange': 'Sandbox', 'symbol': 'BTC-USDT', 'candles': np.array(rows, dtype=float)}})
+    finally:
+        Order.execute = orig
+    return fills
+
+
+def path_scenarios():
+    from jesse.strategies import Strategy
+
+    def rows_of(ohlc_list):
+        return [[TS0 + i * 60000, o, c, h_, l, 10.0] for i, (o, h_, l, c) in enumerate(ohlc_list)]
+
+    class Base(Strategy):
+        def should_long(self): return self.index == 0
+        def should_short(self): return False
+        def should_cancel_entry(self): return False
+        def go_short(self): pass
+    # (1) three resting orders whose creation order differs from the path order: rising candle o=100 h=120 l=90 c=110
+    class S1(Base):
+        def go_long(self): self.buy = [(1, 95.0), (1, 115.0), (1, 105.0)]
+    f = _fills(rows_of([(100, 100, 100, 100), (100, 120, 90, 110), (110, 110, 110, 110)]), S1)
+    got = [p for m, p in f if m == 1]
+    if got != [95.0, 105.0, 115.0]:
+        return (f'rising minute o=100 h=120 l=90 c=110 with buy orders created at 95, 115, 105: fills in that minute {got}, the path '
+                f'open-low-high-close reaches them as [95.0, 105.0, 115.0]')
+    # (2) a minute that opens below the previous close: its range is extended to the previous CLOSE, not to the previous high
+    class S2(Base):
+        def should_long(self): return self.index == 1
+        def go_long(self): self.buy = (1, 106.0)
+    f = _fills(rows_of([(100, 100, 100, 100), (100, 110, 90, 102), (95, 97, 92, 93), (93, 93, 93, 93)]), S2)
+    if any(m == 2 for m, p in f):
+        return ('minute 1 is o=100 h=110 l=90 c=102, minute 2 opens at 95 (h=97, l=92): a buy stop at 106 filled in minute 2 although the '
+                'path from the previous close 102 down to 92 and up to 97 never reaches 106')
+    # (3) two-level reaction chain: entry 2 @ 115, on open: stop 1 @ 112, on reduce: take-profit 1 @ 118; candle o=100 h=120 l=90 c=110
+    class S3(Base):
+        def go_long(self): self.buy = (2, 115.0)
+        def on_open_position(self, order): self.stop_loss = (1, 112.0)
+        def on_reduced_position(self, order): self.take_profit = (1, 118.0)
+    f = _fills(rows_of([(100, 100, 100, 100), (100, 120, 90, 110), (110, 110, 110, 110)]), S3)
+    got = [p for m, p in f if m == 1]
+    if got != [115.0, 112.0]:
+        return (f'minute o=100 h=120 l=90 c=110: entry at 115, reaction stop at 112, second reaction take-profit at 118: fills {got}; after the '
+                f'stop at 112 (on the way down from 120) the rest of the path is 112 -> 110, so 118 is unreachable: expected [115.0, 112.0]')
+    return None
+
+
 def replay(pl):
+    if pl['obligation'].startswith('protocol') or pl['obligation'].startswith('fixed-jump'):
+        try:
+            d = path_scenarios()
+        except Exception as ex:
+            import traceback
+            return {'confirmed': False, 'error': f'{type(ex).__name__}: {ex}', 'stderr': traceback.format_exc()[-800:]}
+        return {'confirmed': bool(d), 'detail': d or 'real backtests fill along the single continuous path in the probed scenarios'}
     m = pl['m']
     ob = pl['obligation']
     rng = random.Random(pl.get('seed', 0))
